@@ -93,12 +93,26 @@ theorem H_minmax_grouped_counterexample :
         [Val.nan] = .ok [Val.ninf]
     ∧ specResult .nanmax Rnanmax0 [0] [Val.nan] 1 = .ok [Val.nan] := by decide +kernel
 
-/-- **`presentKeys keys ≠ []` is necessary for `runUnknown_eq_spec`**: when every label is missing, flox returns the
-    single group `NaN` (with the masked fill), not an empty result. -/
-theorem hpres_counterexample :
+/-- **every label missing** (the repaired behaviour; formerly `hpres_counterexample`): `_aggregate` drops the `NaN`
+    placeholder group, the result is empty like the eager computation's; `runUnknown_eq_spec` applies
+    (`nanmean`, `min_count=1`, `fill_value=-1`, labels `[NaN, NaN, NaN]` in two blocks). -/
+theorem all_missing_example :
     runUnknown { mkCall Rnanmean .npg 0 2 with knownLabels := false } [2, 1] [none, none, none]
-        [.fin 1, .fin 2, .nan] = .ok ([none], [Val.fin (-1)])
-    ∧ specUnknown .nanmean Rnanmean true [none, none, none] [.fin 1, .fin 2, .nan] = .ok ([], []) := by
+        [.fin 1, .fin 2, .nan] = specUnknown .nanmean Rnanmean true [none, none, none] [.fin 1, .fin 2, .nan]
+    ∧ specUnknown .nanmean Rnanmean true [none, none, none] [.fin 1, .fin 2, .nan] = .ok ([], []) :=
+  ⟨runUnknown_eq_spec Rnanmean (.mean true) _ [2, 1] [none, none, none] [.fin 1, .fin 2, .nan] rfl rfl
+      (by decide +kernel) rfl (by decide +kernel) (by decide +kernel) (by decide) rfl,
+    by decide +kernel⟩
+
+/-- **H_allmissing is necessary** (a remaining finding, reproduced on the library): every label missing,
+    `min_count=1`, no fill value: `_finalize_results` masks the placeholder group (count 0) before it is dropped and
+    raises `ValueError("Filling is required…")`; the eager computation returns the empty result. -/
+theorem H_allmissing_counterexample :
+    ¬ HAllMissing { Rnanmean with userFill := none } [none, none, none]
+    ∧ runUnknown { mkCall { Rnanmean with userFill := none } .npg 0 2 with knownLabels := false } [2, 1]
+        [none, none, none] [.fin 1, .fin 2, .nan] = .error "ValueError"
+    ∧ specUnknown .nanmean { Rnanmean with userFill := none } true [none, none, none] [.fin 1, .fin 2, .nan]
+        = .ok ([], []) := by
   decide +kernel
 
 /-- **`chunks ≠ []` is necessary** -/
